@@ -105,10 +105,11 @@ class C09(PropBase):
     rule = ("one case = one seeded history (reference edits by name and by attribute path, formula and base changes, "
             "flag flips as steps, evaluations) executed in two real worlds at once: with the generated cached/uncached "
             "assignment and with every cells cached; every evaluation must agree across the worlds, uncached cells must "
-            "hold nothing and execute on every top-level call, and the flagged world is also checked by the fresh-twin; "
+            "hold nothing and execute on every top-level call, and the flagged world is also checked by the fresh-twin; every run "
+            "ends with an uncached cells called with list arguments (all spellings, through cached callers, reference change); "
             "non-trivial = an uncached cells was evaluated at top level; distinct = distinct event-log digest")
     tiers = {"quick": {"budget_s": 45, "timeout_s": 60}, "thorough": {"budget_s": 900, "timeout_s": 120}}
-    reach_probes = ["reach/flag_twin_queries", "reach/uncached_top_calls", "reach/twin_checks"]
+    reach_probes = ["reach/flag_twin_queries", "reach/uncached_top_calls", "reach/twin_checks", "reach/unhashable_epilogues"]
     assumptions = c02.PROP.assumptions + ["histories contain no value assignments (uncached cells refuse them by design)"]
 
     def execute(self, ctx):
@@ -120,7 +121,41 @@ class C09(PropBase):
             run.generate(WEIGHTS, cfg["n_steps"], cfg["p_check"])
         else:
             run.replay(ctx.doc["steps"])
+        self.unhashable(ctx, run)
         run.finish()
+
+    def unhashable(self, ctx, run):
+        """Uncached cells accept unhashable arguments (deterministic epilogue on the model the history left behind):
+        right values under every spelling, executed on every call, nothing held, and a cached caller that reached a
+        reference through such a call is refreshed when the reference changes."""
+        m = run.mach.world.m
+        if "ZZ9" in m.spaces or "zk" in m.refs:
+            return
+        sp = m.new_space("ZZ9")
+        m.zk = 7
+        c = sp.new_cells("zz", formula="lambda x, y=0: (P(_space, 'zz', 0), len(x) + y + _model.zk)[1]")
+        c.is_cached = False
+        w = sp.new_cells("ww", formula="lambda: zz([1, 2]) + 1")
+        w2 = sp.new_cells("wv", formula="lambda: zz([1, 2], y=zk) + 1")
+        n0 = len(probe.LOG)
+        got = []
+        try:
+            got = [c([1, 2, 3]), c([1, 2, 3], 2), c(x=[5], y=1), c([1, 2, 3]), w(), w2(), w()]
+        except Exception as e:
+            raise Violation("C09/uncached-rejects-unhashable-argument/%s" % type(e).__name__, {"error": repr(e)[:200], "got": got})
+        execs = sum(1 for e in probe.LOG[n0:] if e[1] == "zz")
+        run.mach.events.append("unhashable %s execs=%d" % (got, execs))
+        ctx.count("unhashable_epilogues", 1, "reach")
+        if got != [10, 12, 9, 10, 10, 17, 10]:
+            raise Violation("C09/unhashable-argument-wrong-value", {"got": got})
+        if execs != 6:
+            raise Violation("C09/unhashable-argument-executions", {"executions": execs, "want": 6})
+        if len(c) != 0:
+            raise Violation("C09/uncached-holds-values", {"cells": "ZZ9.zz", "len": len(c)})
+        m.zk = 8
+        got2 = [c([1, 2, 3]), w(), w2()]
+        if got2 != [11, 11, 19]:
+            raise Violation("C09/stale/via=unhashable-argument-call/edit=set_ref", {"got": got2, "want": [11, 11, 19]})
 
 
 PROP = C09()
